@@ -34,12 +34,13 @@ func collectOps(raw json.RawMessage, out *[]string) {
 func mcExprCfg(tier string) string {
 	return fmt.Sprintf(`SPECIFICATION Spec
 CONSTANT Tier = "%s"
+CONSTANT Seed = %d
 INVARIANT LawsHold
 INVARIANT TotalHold
 INVARIANT TruthHold
 INVARIANT Export
 CHECK_DEADLOCK FALSE
-`, tier)
+`, tier, specSeed())
 }
 
 // build the script and its environment for an expression row
